@@ -39,6 +39,7 @@ static int ran_flag;
 
 static int reentrant_mode; /* 0 none; 1: task 0, when RUN, schedules task 1 now; 2: task 0, when RUN, cancels task 2 */
 static int reentrant_done;
+static int release_called; /* set by the owner immediately before its final aws_thread_scheduler_release */
 static void task_fn(struct aws_task *t, void *arg, enum aws_task_status status) {
     int i = (int)(intptr_t)arg;
     (void)t;
@@ -47,8 +48,10 @@ static void task_fn(struct aws_task *t, void *arg, enum aws_task_status status) 
         if (reentrant_mode == 1) aws_thread_scheduler_schedule_now(ts, &task[1]);
         if (reentrant_mode == 2) aws_thread_scheduler_cancel_task(ts, &task[2]);
     }
-    /* mode 3: task 2, when its explicit cancellation is delivered by the scheduler thread, schedules task 1 (a follow-up) */
-    if (i == 2 && status == AWS_TASK_STATUS_CANCELED && reentrant_mode == 3 && !reentrant_done && vs_current_tid() == 1) {
+    /* mode 3: task 2, when its explicit cancellation is delivered while the owner has not yet begun the final release (handing
+     * new work to a scheduler that is being torn down is the caller's mistake, whichever thread delivers the shutdown
+     * cancellations), schedules task 1 (a follow-up) */
+    if (i == 2 && status == AWS_TASK_STATUS_CANCELED && reentrant_mode == 3 && !reentrant_done && !release_called) {
         reentrant_done = 1;
         aws_thread_scheduler_schedule_now(ts, &task[1]);
     }
@@ -77,7 +80,7 @@ static void setup(void) {
     memset(run_collect_seq, 0, sizeof(run_collect_seq));
     memset(cancel_done_seq, 0, sizeof(cancel_done_seq));
     after_release = invoked_after_release = ran_flag = 0;
-    reentrant_mode = reentrant_done = 0;
+    reentrant_mode = reentrant_done = release_called = 0;
     ts = aws_thread_scheduler_new(A, NULL);
     if (!ts) vs_harness_error("aws_thread_scheduler_new failed");
     for (int i = 0; i < NT; ++i) {
@@ -355,6 +358,7 @@ static void s13(void) {
     pthread_mutex_lock(&hm); /* ... and deliver the cancellation before the release */
     pthread_mutex_unlock(&hm);
     int h[NT] = {0, reentrant_done, 1}, c[NT] = {0, 0, 1};
+    release_called = 1;
     aws_thread_scheduler_release(ts);
     after_release = 1;
     h[1] = reentrant_done;
